@@ -17,6 +17,7 @@ noncomputable instance instNumReal : Num ℝ where
   neg := fun x => -x
   isZero := fun x => decide (x = 0)
   lt := fun a b => decide (a < b)
+  isNaN := fun _ => false
 
 namespace NumReal
 
@@ -29,6 +30,7 @@ namespace NumReal
 @[simp] theorem exp_eq (a : ℝ) : Num.exp a = Real.exp a := rfl
 @[simp] theorem isZero_eq (a : ℝ) : Num.isZero a = decide (a = 0) := rfl
 @[simp] theorem lt_eq (a b : ℝ) : Num.lt a b = decide (a < b) := rfl
+@[simp] theorem isNaN_eq (a : ℝ) : Num.isNaN a = false := rfl
 theorem div?_eq (a b : ℝ) : Num.div? a b = if b = 0 then none else some (a / b) := rfl
 
 theorem div?_of_ne (a : ℝ) {b : ℝ} (h : b ≠ 0) : Num.div? a b = some (a / b) := by
